@@ -893,7 +893,10 @@ func (e *Engine) timeBefore(st *State, t, u TimeV) *Term {
 		// instants relative to the anchor day (correct inside an overlap, where civil fields repeat)
 		return c.Or(c.BVSlt(t.Rel, u.Rel), c.And(c.Eq(t.Rel, u.Rel), c.BVSlt(t.Ns, u.Ns)))
 	}
-	if t.UTC != u.UTC && e.opt.Zone != 0 {
+	if t.UTC != u.UTC && e.opt.Zone == 1 && !t.Other && !u.Other && (t.UTC.IsTrue() || t.UTC.IsFalse()) && (u.UTC.IsTrue() || u.UTC.IsFalse()) {
+		// one time in UTC, the other in the fixed-offset process zone: compare the instants on the UTC axis
+		t, u = e.timeToUTC(st, t), e.timeToUTC(st, u)
+	} else if t.UTC != u.UTC && e.opt.Zone != 0 {
 		panic(unsupported("comparison of times in different locations under a symbolic zone"))
 	}
 	// same offset: lexicographic on civil fields
